@@ -34,14 +34,14 @@ STATIC = ('Static analysis of the MIR rustc produces for the real cargo build (r
 
 PROPERTIES = {
     'C01': P('ordered collection equals sequential iteration',
-             ['C01-KEY', 'C01-APPEND', 'C01-MERGE', 'C01-RESERVE', 'C01-COMPOSE', 'C05-VISIT', 'C05-NOSKIP', 'C05-SOURCE', 'S2', 'S4', 'S5', 'S1', 'C15-CLAMP', 'C15-CHUNKCAP', 'C15-CHUNKCAP-U'],
+             ['C01-KEY', 'C01-APPEND', 'C01-MERGE', 'C01-RESERVE', 'C01-COMPOSE', 'C05-VISIT', 'C05-NOSKIP', 'C05-SOURCE', 'S2', 'S4', 'S5', 'S1', 'C15-CLAMP', 'C15-CHUNKCAP', 'C15-CHUNKCAP-U', 'C01-FRESH'],
              STATIC + 'Decided: merge keys / positional slots are the source positions delivered by the pull that produced the value; '
              'per-thread buffers are append-only; def-use facts of the k-way merge; capacity reservation dominates the positional path; '
              'stage order in composed closures; all per-thread results reach the merge; ordered terminals never reach an unordered kernel; '
              'the parameter resolution cannot panic and bounds every chunk size by the known input length (no position wrap-around). '
              'Not decided: functional correctness of the merge for every key multiset, equality over all inputs.'),
     'C02': P('find/first/any/all answer with the first match in source order',
-             ['C02-MINIDX', 'C02-IDX', 'C02-FIRST', 'C02-ANYALL', 'C01-COMPOSE', 'S2', 'S4', 'S5', 'C15-CLAMP', 'C15-CHUNKCAP', 'C15-CHUNKCAP-U'],
+             ['C02-MINIDX', 'C02-IDX', 'C02-FIRST', 'C02-ANYALL', 'C01-COMPOSE', 'S2', 'S4', 'S5', 'C15-CLAMP', 'C15-CHUNKCAP', 'C15-CHUNKCAP-U', 'C01-FRESH'],
              STATIC + 'Decided: the cross-thread reduction of find results is min-by-index on its whole finite domain; reported indices '
              'originate from the pull position; each task returns its own first match; any/all/find_with_index wiring. '
              'Not decided: the schedule quantifier itself (discharged compositionally through T3).'),
